@@ -670,7 +670,7 @@ func main() {
 		if thorough {
 			splitCases(rnd, enc, 60, 40, 65536)
 			ecCases(rnd, enc, 150, 40, 16384)
-			ecRecoveryCases(rnd, enc, [][2]int{{2, 1}, {3, 2}, {4, 2}, {5, 2}, {5, 3}, {3, 1}, {2, 2}, {6, 3}, {4, 1}, {3, 3}, {8, 3}}, true)
+			ecRecoveryCases(rnd, enc, [][2]int{{2, 1}, {3, 2}, {4, 2}, {5, 2}, {5, 3}, {3, 1}, {2, 2}, {6, 3}, {4, 1}, {3, 3}}, true)
 		} else {
 			splitCases(rnd, enc, 10, 16, 32768)
 			ecCases(rnd, enc, 30, 16, 4096)
